@@ -33,12 +33,16 @@ CONTRACTS_H = os.path.join(CBMC_DIR, "contracts.h")
 LOOPS_TXT = os.path.join(CBMC_DIR, "loop_contracts.txt")
 HARNESS_DIR = os.path.join(CBMC_DIR, "harness")
 
-SOURCES = ["blake3.c", "blake3_dispatch.c", "blake3_portable.c"]
+# blake3_dispatch.c first: its static g_cpu_features must be in scope for the loop contracts
+# inserted into blake3.c
+SOURCES = ["blake3_dispatch.c", "blake3_portable.c", "blake3.c"]
 PORTABLE_DEFS = ["-DBLAKE3_NO_SSE2", "-DBLAKE3_NO_SSE41", "-DBLAKE3_NO_AVX2", "-DBLAKE3_NO_AVX512"]
 
 CHECK_FLAGS = ["--pointer-check", "--bounds-check", "--pointer-overflow-check",
                "--signed-overflow-check", "--undefined-shift-check", "--div-by-zero-check",
                "--object-bits", "12"]
+
+MIN_UNWIND = 10
 
 BASE_TRUST = [
     "CBMC 6.11 / DFCC (goto-cc front end, contract instrumentation, bit-precise SAT back end) is sound",
@@ -47,7 +51,8 @@ BASE_TRUST = [
     "(VERIF_MAX_OBJ); lengths are otherwise unconstrained",
     "unsigned wrap-around and narrowing conversions are legal C and are not flagged "
     "(--unsigned-overflow-check / --conversion-check off); constrained only where a contract says so",
-    "x86-64 data model of goto-cc (LP64, little endian, MAX_SIMD_DEGREE == 16)",
+    "x86-64 data model of goto-cc (LP64, little endian, MAX_SIMD_DEGREE == 16); <immintrin.h> is "
+    "replaced by an empty stub (blake3_dispatch.c references nothing from it under GCC/Clang)",
 ]
 
 SIMD_IN_PLACE = ["blake3_compress_in_place_avx512", "blake3_compress_in_place_sse41",
@@ -196,7 +201,7 @@ def insert_loop_contracts(text, func, clauses):
 # --------------------------------------------------------------------------------------------
 
 _KIND = [
-    ("postcondition", "postcondition"), ("precondition", "precondition"), ("assigns", "assigns"),
+    ("unwind", "unwinding"), ("postcondition", "postcondition"), ("precondition", "precondition"), ("assigns", "assigns"),
     ("unwind", "unwinding"), ("overflow", "overflow"), ("undefined-shift", "overflow"),
     ("division-by-zero", "overflow"), ("array_bounds", "bounds"), ("pointer", "bounds"),
     ("bounds", "bounds"), ("loop_invariant", "invariant"), ("loop_decreases", "invariant"),
@@ -367,12 +372,14 @@ def build_unit(name, scratch, repo=None):
     return main_c, info
 
 
-def _commands(name, main_c, scratch, repo, trace=True):
+def _commands(name, main_c, scratch, repo, trace=True, sanity=False):
     u = UNITS[name]
     defs = (PORTABLE_DEFS if u["config"] == "portable" else []) + u["defs"]
+    if sanity:
+        defs = defs + ["-DVERIF_SANITY"]
     g1 = os.path.join(scratch, "h.goto")
     g2 = os.path.join(scratch, "h_dfcc.goto")
-    cc = ["goto-cc", "-I" + os.path.join(repo, "c")] + defs + ["-o", g1, main_c, "--function", "harness"]
+    cc = ["goto-cc", "-I" + os.path.join(CBMC_DIR, "stubs"), "-I" + os.path.join(repo, "c")] + defs + ["-o", g1, main_c, "--function", "harness"]
     gi = ["goto-instrument", "--dfcc", "harness"]
     if u["enforce"]:
         gi += ["--enforce-contract-rec" if u["rec"] else "--enforce-contract", u["func"]]
@@ -381,7 +388,9 @@ def _commands(name, main_c, scratch, repo, trace=True):
     if u["loops"]:
         gi += ["--apply-loop-contracts"]
     gi += [g1, g2]
-    cb = ["cbmc", g2] + CHECK_FLAGS + ["--unwind", str(u["unwind"]), "--unwinding-assertions"]
+    # MIN_UNWIND: the DFCC library iterates over the targets of a replaced callee's assigns
+    # clause (at most 7 targets in contracts.h); its loops are covered by unwinding assertions too
+    cb = ["cbmc", g2] + CHECK_FLAGS + ["--unwind", str(max(u["unwind"], MIN_UNWIND)), "--unwinding-assertions"]
     cb += u["extra_cbmc"]
     if trace:
         cb += ["--trace"]
@@ -402,7 +411,9 @@ def _parse_json(out):
         return None
 
 
-def run_unit(name, tier="quick", keep=False):
+def run_unit(name, tier="quick", keep=False, sanity=False):
+    """sanity=True (self-test only) compiles the harness with -DVERIF_SANITY: an assert(0) at the end
+    of the harness, which must FAIL -- otherwise the contract's assumptions are vacuous."""
     res = common.new_result(name, "cbmc")
     if name not in UNITS:
         res["undecided_reason"] = "unknown unit"
@@ -435,7 +446,7 @@ def run_unit(name, tier="quick", keep=False):
             res["functions_trusted"].append(
                 "loop contracts of %s inserted from verif/cbmc/loop_contracts.txt (checked: base, step, "
                 "assigns, decreases)" % ", ".join(sorted({"%s#%d" % (fn, i) for _, fn, i in u["loops"]})))
-        cc, gi, cb = _commands(name, main_c, scratch, repo)
+        cc, gi, cb = _commands(name, main_c, scratch, repo, sanity=sanity)
         cmds = [cc, gi, cb]
         res["cmd"] = " && ".join(_fmt(c) for c in cmds)
         rc, out, err, _ = common.run(cc, timeout=120, mem_gb=u["mem_gb"])
@@ -538,17 +549,195 @@ def replay(failed, repo=None):
 def _register():
     U = UNITS
     H = "blake3_impl.h"
-    # ---- integer helpers: exact over the machine domain ------------------------------------
+    D = "blake3_dispatch.c"
+    P = "blake3_portable.c"
+    API = ["C07", "C18"]
+    LEAF = ["make_output", "chunk_state_maybe_start_flag", "chunk_state_len", "chunk_state_output",
+            "parent_output", "chunk_state_init", "chunk_state_reset", "store_cv_words", "load_key_words",
+            "load32", "store32", "popcnt"]
+
+    # ---- blake3_impl.h integer / byte helpers: exact over the machine domain ---------------
     U["highest_one"] = _u("highest_one", ["C06", "C07"], file=H,
                           doc="x != 0: r < 64 and x >> r == 1 (index of the highest set bit), every x")
     U["popcnt"] = _u("popcnt", ["C06", "C07"], file=H,
-                     doc="popcnt(x) == sum of the 64 bits of x, every x")
+                     doc="popcnt(x) == sum of the 64 bits of x (and == the builtin the contracts use), every x")
     U["round_down_to_power_of_2"] = _u(
         "round_down_to_power_of_2", ["C06", "C07"], file=H, replace=["highest_one"],
         doc="r power of two, r <= x < 2r (x > 0), r == 1 for x == 0, every x")
     U["left_subtree_len"] = _u(
         "left_subtree_len", ["C06", "C07"], replace=["round_down_to_power_of_2"],
         doc="input_len > 1024: r = 1024*2^k, r < input_len <= 2r, every size_t")
+    U["load32"] = _u("load32", ["C07"], file=H, doc="reads exactly 4 bytes, little endian")
+    U["store32"] = _u("store32", ["C07"], file=H, doc="writes exactly 4 bytes, little endian")
+    U["load_key_words"] = _u("load_key_words", ["C07"], file=H, inlined=["load32"],
+                             doc="reads 32 bytes, writes the 8 words, little endian")
+    U["store_cv_words"] = _u("store_cv_words", ["C07"], file=H, inlined=["store32"],
+                             doc="writes exactly 32 bytes, little endian")
+
+    # ---- blake3_portable.c ------------------------------------------------------------------
+    U["blake3_compress_in_place_portable"] = _u(
+        "blake3_compress_in_place_portable", ["C07"], file=P,
+        inlined=["compress_pre", "round_fn", "g", "rotr32", "load32", "counter_low", "counter_high"],
+        doc="reads cv[8], block[64]; writes exactly cv[0..8); every block_len/counter/flags; loop-free")
+    U["blake3_compress_xof_portable"] = _u(
+        "blake3_compress_xof_portable", ["C07"], file=P,
+        inlined=["compress_pre", "round_fn", "g", "rotr32", "load32", "store32", "counter_low", "counter_high"],
+        doc="reads cv[8], block[64]; writes exactly out[0..64); loop-free")
+    U["hash_one_portable"] = _u(
+        "hash_one_portable", ["C07"], file=P, replace=["blake3_compress_in_place_portable"],
+        inlined=["store_cv_words"], loops=[(P, "hash_one_portable", 0)],
+        doc="reads input[0..64*blocks), key; writes exactly out[0..32); unbounded blocks (loop contract)")
+    U["blake3_hash_many_portable"] = _u(
+        "blake3_hash_many_portable", ["C07"], file=P, replace=["hash_one_portable"], unwind=17,
+        loops=[(P, "blake3_hash_many_portable", 0)],
+        bounded=["num_inputs <= 16 = MAX_SIMD_DEGREE by the contract's requires (row validity cannot be "
+                 "quantified; every caller in blake3.c is checked against the bound); unwind 17 only for the "
+                 "harness loop that allocates the rows; the function's own loop has a loop contract; blocks unbounded"],
+        doc="<= 16 rows of 64*blocks bytes; writes exactly out[0..32*num_inputs)")
+
+    # ---- blake3_dispatch.c: full x86 dispatch, SIMD kernels = assumed frame contracts ---------
+    U["get_cpu_features"] = _u(
+        "get_cpu_features", ["C18", "C07"], file=D, config="dispatch",
+        inlined=["cpuid", "cpuidex", "xgetbv"],
+        extra_trust=["inline asm (cpuid, xgetbv) is a nondeterministic assignment to its output operands "
+                     "(CBMC's asm model): the proof holds for every CPU"],
+        doc="only g_cpu_features is written; a defined cache is returned unchanged (idempotent); a stored "
+            "value is the returned one and has feature bits only")
+    U["blake3_simd_degree"] = _u(
+        "blake3_simd_degree", ["C07", "C18"], file=D, config="dispatch", replace=["get_cpu_features"],
+        doc="result in {1,4,8,16}, a function of the feature cache only")
+    U["blake3_compress_in_place"] = _u(
+        "blake3_compress_in_place", ["C07", "C18"], file=D, config="dispatch",
+        replace=["get_cpu_features", "blake3_compress_in_place_portable"] + SIMD_IN_PLACE,
+        doc="every dispatch path writes exactly cv[0..8) and the feature cache")
+    U["blake3_compress_xof"] = _u(
+        "blake3_compress_xof", ["C07", "C18"], file=D, config="dispatch",
+        replace=["get_cpu_features", "blake3_compress_xof_portable"] + SIMD_XOF,
+        doc="every dispatch path writes exactly out[0..64) and the feature cache")
+    U["blake3_xof_many"] = _u(
+        "blake3_xof_many", ["C07", "C18"], file=D, config="dispatch",
+        replace=["get_cpu_features", "blake3_compress_xof"] + SIMD_XOF_MANY,
+        loops=[(D, "blake3_xof_many", 0)],
+        doc="exactly 64 bytes per XOF block: out[0..64*outblocks), unbounded outblocks (loop contract); "
+            "outblocks == 0 writes nothing; the avx512 asm is only called with outblocks >= 1")
+    U["blake3_hash_many"] = _u(
+        "blake3_hash_many", ["C07", "C18"], file=D, config="dispatch", unwind=17,
+        replace=["get_cpu_features", "blake3_hash_many_portable"] + SIMD_HASH_MANY,
+        bounded=["unwind 17 only for the harness loop that allocates the <= 16 input rows; the function is loop-free"],
+        doc="exactly 32 bytes per hashed input: out[0..32*num_inputs) on every dispatch path")
+
+    # ---- blake3.c: chunk state -------------------------------------------------------------
+    U["blake3_version"] = _u("blake3_version", API, doc="assigns nothing, returns a readable string")
+    U["chunk_state_init"] = _u("chunk_state_init", ["C06", "C07"],
+                               doc="cv == key, counter 0, buf zeroed, buf_len == blocks_compressed == 0, flags set")
+    U["chunk_state_reset"] = _u("chunk_state_reset", ["C06", "C07"],
+                                doc="as init with the given counter; flags not written; key may alias the hasher")
+    U["chunk_state_len"] = _u("chunk_state_len", ["C06", "C07"], doc="== 64*blocks_compressed + buf_len, assigns nothing")
+    U["chunk_state_fill_buf"] = _u(
+        "chunk_state_fill_buf", ["C07", "C06"],
+        doc="take == min(64-buf_len, input_len); writes only buf and buf_len; buf_len grows by take; any input_len")
+    U["chunk_state_fill_buf_bytes"] = _u(
+        "chunk_state_fill_buf", ["C06"], harness="chunk_state_fill_buf", defs=["-DVERIF_EXACT_BYTES"],
+        tier="thorough",
+        doc="additionally: the appended bytes are input[0..take), all other buffer bytes unchanged")
+    U["chunk_state_maybe_start_flag"] = _u("chunk_state_maybe_start_flag", ["C06", "C07"],
+                                           doc="CHUNK_START iff blocks_compressed == 0")
+    U["make_output"] = _u("make_output", ["C06", "C07"],
+                          doc="all five fields copied exactly (cv words, 64 block bytes, block_len, counter, flags)")
+    U["chunk_state_output"] = _u(
+        "chunk_state_output", ["C06", "C07"], inlined=["make_output", "chunk_state_maybe_start_flag"],
+        doc="flags | CHUNK_START? | CHUNK_END, the chunk's counter, block_len = buf_len, whole buffer, cv")
+    U["parent_output"] = _u("parent_output", ["C06", "C07"], inlined=["make_output"],
+                            doc="flags | PARENT, counter 0, block_len 64, block and key copied")
+    U["output_chaining_value"] = _u(
+        "output_chaining_value", ["C07"], replace=["blake3_compress_in_place"], inlined=["store_cv_words", "store32"],
+        doc="writes exactly cv[0..32) (+ feature cache); block_len <= 64 passed on")
+    U["output_root_bytes"] = _u(
+        "output_root_bytes", ["C07"], replace=["blake3_compress_xof", "blake3_xof_many"],
+        doc="writes exactly out[0..out_len) for every seek and out_len (unbounded); nothing for out_len == 0")
+    U["chunk_state_update"] = _u(
+        "chunk_state_update", ["C07", "C06"], replace=["chunk_state_fill_buf", "blake3_compress_in_place"],
+        inlined=["chunk_state_maybe_start_flag"], loops=[("blake3.c", "chunk_state_update", 0)],
+        doc="within one chunk: len grows by exactly input_len; input_len > 0 ==> buf_len > 0 (lazy last block); "
+            "writes only cv, buf, buf_len, blocks_compressed")
+
+    # ---- blake3.c: subtrees ------------------------------------------------------------------
+    U["compress_chunks_parallel"] = _u(
+        "compress_chunks_parallel", ["C07"], unwind=17,
+        replace=["blake3_hash_many", "chunk_state_update", "output_chaining_value"],
+        inlined=["chunk_state_init", "chunk_state_output", "make_output", "chunk_state_maybe_start_flag"],
+        bounded=["unwind 17: at most MAX_SIMD_DEGREE = 16 whole chunks by the requires clause "
+                 "(input_len <= 16*1024); unwinding assertion passes"],
+        doc="0 < input_len <= 16 KiB: exactly 32 bytes per chunk written, returns ceil(len/1024); the "
+            "hash_many rows lie inside input")
+    U["compress_parents_parallel"] = _u(
+        "compress_parents_parallel", ["C07"], unwind=17, replace=["blake3_hash_many"],
+        bounded=["unwind 17: at most MAX_SIMD_DEGREE_OR_2 = 16 parents by the requires clause "
+                 "(num_chaining_values <= 32); unwinding assertion passes"],
+        doc="2 <= n <= 32 CVs: exactly 32*ceil(n/2) bytes written, returns ceil(n/2)")
+    U["blake3_compress_subtree_wide"] = _u(
+        "blake3_compress_subtree_wide", ["C07"], rec=True,
+        replace=["blake3_simd_degree", "compress_chunks_parallel", "left_subtree_len", "compress_parents_parallel"],
+        doc="recursive (--enforce-contract-rec), unbounded input_len: writes only out[0..512) ; 1 <= n <= 16, "
+            "n == 1 iff a single chunk; both recursive calls and the parent layer stay inside cv_array")
+    U["compress_subtree_to_parent_node"] = _u(
+        "compress_subtree_to_parent_node", ["C07"], unwind=5,
+        replace=["blake3_compress_subtree_wide", "compress_parents_parallel"],
+        bounded=["unwind 5: num_cvs <= 16 halves each round (16, 8, 4, 2): at most 3 iterations; unwinding assertion passes"],
+        doc="input_len > 1024 unbounded: writes exactly out[0..64); the assert(num_cvs <= 16) holds")
+
+    # ---- blake3.c: hasher ----------------------------------------------------------------------
+    U["hasher_init_base"] = _u(
+        "hasher_init_base", ["C06", "C07"], inlined=["chunk_state_init"],
+        doc="key, chunk state and cv_stack_len set (whole struct except the dead stack bytes); HASHER_WF holds")
+    U["blake3_hasher_init"] = _u("blake3_hasher_init", API + ["C06"], replace=["hasher_init_base"],
+                                 doc="== hasher_init_base(IV, 0); writes only *self")
+    U["blake3_hasher_init_keyed"] = _u(
+        "blake3_hasher_init_keyed", API + ["C06"], replace=["hasher_init_base"], inlined=["load_key_words", "load32"],
+        doc="key words = little-endian key bytes, flags KEYED_HASH; writes only *self")
+    U["blake3_hasher_init_derive_key_raw"] = _u(
+        "blake3_hasher_init_derive_key_raw", API + ["C06"],
+        replace=["hasher_init_base", "blake3_hasher_update", "blake3_hasher_finalize"],
+        inlined=["load_key_words", "load32"],
+        doc="any context_len: writes only *self (+ feature cache); result is a fresh DERIVE_KEY_MATERIAL hasher; "
+            "the inner context hasher satisfies update/finalize's preconditions")
+    U["blake3_hasher_init_derive_key"] = _u(
+        "blake3_hasher_init_derive_key", API + ["C06"], defs=["-DVERIF_UNIT_DERIVE_KEY"],
+        replace=["blake3_hasher_init_derive_key_raw", "strlen"],
+        extra_trust=["strlen(s) returns the length of the NUL-terminated string s and reads only it (assumed contract)"],
+        doc="== init_derive_key_raw(ctx, strlen(ctx)): the call's arguments are checked to be exactly those")
+    U["hasher_merge_cv_stack"] = _u(
+        "hasher_merge_cv_stack", ["C07", "C06"], replace=["output_chaining_value"], inlined=["parent_output", "make_output", "popcnt"],
+        loops=[("blake3.c", "hasher_merge_cv_stack", 0)],
+        doc="cv_stack_len' == popcnt(total) when it was larger, else unchanged; cv_stack_len-2 never wraps; "
+            "writes only the stack and its length")
+    U["hasher_push_cv"] = _u(
+        "hasher_push_cv", ["C07", "C06"], replace=["hasher_merge_cv_stack"],
+        doc="len' == min(len, popcnt(counter)) + 1 <= 55: the 32 new bytes land inside cv_stack")
+    U["blake3_hasher_update_base"] = _u(
+        "blake3_hasher_update_base", ["C07", "C06"], tier="thorough", timeout=1500,
+        replace=["chunk_state_update", "output_chaining_value", "hasher_push_cv", "round_down_to_power_of_2",
+                 "compress_subtree_to_parent_node", "hasher_merge_cv_stack"],
+        inlined=["chunk_state_len", "chunk_state_output", "chunk_state_reset", "chunk_state_init", "make_output",
+                 "chunk_state_maybe_start_flag"],
+        loops=[("blake3.c", "blake3_hasher_update_base", 0), ("blake3.c", "blake3_hasher_update_base", 1)],
+        doc="unbounded input_len (loop contracts): HASHER_WF preserved (stack never exceeds 55 entries), "
+            "total bytes grow by exactly input_len, writes only chunk/stack/stack length, nothing for input_len == 0")
+    U["blake3_hasher_update"] = _u(
+        "blake3_hasher_update", API + ["C06"], replace=["blake3_hasher_update_base"],
+        doc="same contract as update_base; update(_, _, 0) assigns nothing; key never written")
+    U["blake3_hasher_finalize_seek"] = _u(
+        "blake3_hasher_finalize_seek", API + ["C06"], replace=["output_chaining_value", "output_root_bytes"],
+        inlined=["chunk_state_output", "parent_output", "make_output", "chunk_state_len", "chunk_state_maybe_start_flag"],
+        loops=[("blake3.c", "blake3_hasher_finalize_seek", 0)],
+        doc="assigns only out[0..out_len) (+ feature cache): the hasher is not written; out_len == 0 needs no "
+            "valid pointer at all; every seek; cv_stack_len - 2 never wraps under HASHER_WF")
+    U["blake3_hasher_finalize"] = _u(
+        "blake3_hasher_finalize", API + ["C06"], replace=["blake3_hasher_finalize_seek"],
+        doc="== finalize_seek(self, 0, out, out_len); same frame")
+    U["blake3_hasher_reset"] = _u(
+        "blake3_hasher_reset", API + ["C06"], inlined=["chunk_state_reset"],
+        doc="every field equals hasher_init_base(self->key, self->chunk.flags); key and flags not written")
 
 
 _register()
@@ -560,13 +749,14 @@ if __name__ == "__main__":
     ap.add_argument("--list", action="store_true")
     ap.add_argument("--keep", action="store_true")
     ap.add_argument("--full", action="store_true")
+    ap.add_argument("--sanity", action="store_true", help="vacuity self-test: every unit must FAIL only the VERIF_SANITY assertion")
     a = ap.parse_args()
     if a.list:
         for k, v in list_units().items():
             print("%-36s %-8s %-12s %s" % (k, v["tier"], ",".join(v["props"]), v["doc"]))
         sys.exit(0)
     for n in a.units or list(UNITS):
-        r = run_unit(n, keep=a.keep)
+        r = run_unit(n, keep=a.keep, sanity=a.sanity)
         if a.full:
             print(json.dumps(r, indent=1))
         else:
